@@ -337,7 +337,8 @@ class SamplerCore:
         import numpy as np
 
         if self.config.vectorize:
-            return self.config.log_likelihood(x), None
+            # Copy: the array belongs to the caller (it may be read-only or re-used)
+            return np.array(self.config.log_likelihood(x)), None
         elif self.config.pool is not None:
             results = list(self._get_distribute_func()(self.config.log_likelihood, x))
         else:
